@@ -58,14 +58,14 @@ var precedences = map[token.Type]int{
 	token.CONTAINS:       LESSGREATER,
 	token.MISSING:        LESSGREATER,
 	token.IN:             LESSGREATER,
-	token.PLUSEQUALS:     SUM,
+	token.PLUSEQUALS:     ASSIGN,
 	token.PLUS:           SUM,
 	token.MINUS:          SUM,
-	token.MINUSEQUALS:    SUM,
+	token.MINUSEQUALS:    ASSIGN,
 	token.SLASH:          PRODUCT,
-	token.SLASHEQUALS:    PRODUCT,
+	token.SLASHEQUALS:    ASSIGN,
 	token.ASTERISK:       PRODUCT,
-	token.ASTERISKEQUALS: PRODUCT,
+	token.ASTERISKEQUALS: ASSIGN,
 	token.POW:            POWER,
 	token.MOD:            MOD,
 	token.AND:            COND,
